@@ -98,6 +98,11 @@ def run(F, R, tier):
     r02_attr_sources(cx, R, S)
     r02_9_more(cx, R, S)
     r02_misc(cx, R, S)
+    D.narrowing_rule(F, R, "R02.8",
+                     "every narrowing `as` cast on the write path (simple_class_writer, its pool and label helpers, ClassWrite) is proved lossless by "
+                     "the interval analysis over the monomorphic MIR (e.g. `index as u8` only under `index < 4`), or is reviewed (a length that a later "
+                     "check rejects before anything is emitted)",
+                     lambda f: f.path.startswith("duke::simple_class_writer") or "ClassWrite" in f.path, 1)
     # floors = instance counts confirmed on the tree the rules were written against, minus a small slack (vacuity guard)
     for rid, n in (("R02.1", 295), ("R02.2", 62), ("R02.3", 68), ("R02.4", 390), ("R02.5", 290), ("R02.6", 13), ("R02.7", 120), ("R02.9", 128)):
         R.floor(rid, n)
